@@ -1,6 +1,8 @@
 --------------------------- MODULE ConnLifeTrace ---------------------------
 (* Leg B of C02: a trace of harness/input/input_drv.cpp (mode c02) is accepted *)
-(* iff every line is an action of ConnLife.  Died / Late lines have no action. *)
+(* iff every line is an action of ConnLife.  Died / Late / Early lines have no  *)
+(* action (Early: the application was called, or a reply was there, before the *)
+(* peer had sent the last segment of a still incomplete request).               *)
 (* Executions (Reset-delimited cases) are independent, so every Reset line is  *)
 (* an initial state and TLC judges all cases in one run: a case is accepted    *)
 (* iff its behaviour reaches the next Reset line ("AT" lines report the         *)
